@@ -46,7 +46,8 @@ class Harness:
         self.sent = []          # (pc, SBytes)
         self.indications = []   # (pc, Obj)
         self.table_calls = []   # (pc, name, args)
-        self.dup = {}
+        self.dup = {}           # method name -> condition "reported a duplicate" (all calls)
+        self.dup_vars = []      # (method name, fresh Bool) per call
         I.stubs[id(self.ll)] = self._send
         I.stubs[id(self.cb)] = self._indicate
         self.Ro = I.lift(self.R)
@@ -100,7 +101,24 @@ class Harness:
         return None
 
     def _geom(self, it, a, k, pc):
+        """free-valued geometric function: one arbitrary real per distinct argument tuple"""
+        def key(v):
+            if isinstance(v, z3.ExprRef):
+                return ("t", v.get_id())
+            if isinstance(v, Obj):
+                return tuple((kk, key(x)) for kk, x in sorted(v.fields.items()))
+            if isinstance(v, EnumSym):
+                return ("e", v.cls.__name__, v.val.get_id())
+            return ("c", repr(v))
+        kk = tuple(key(x) for x in a[1:])
+        cache = self.__dict__.setdefault("_fcache", {})
+        if kk in cache:
+            i = cache[kk]
+            pc0, a0, f = self.F[i]
+            self.F[i] = (z3.Or(pc0, pc), a0, f)
+            return f
         f = z3.Real(it.fresh("F"))
+        cache[kk] = len(self.F)
         self.F.append((pc, a[1:], f))
         return f
 
@@ -148,7 +166,8 @@ class Harness:
             raise NotImplementedError("ensure_entry on stub table: use table='real'")
         if name.startswith("new_"):
             d = z3.Bool(it.fresh("dup_" + name))
-            self.dup[name] = d
+            self.dup_vars.append((name, d))
+            self.dup[name] = d if name not in self.dup else z3.Or(self.dup[name], d)
             it.raises.append((z3.And(pc, d), DuplicatedPacketException))
             return None
         if name == "refresh_table":
@@ -243,7 +262,7 @@ def all_vars(h, *extra):
         for i, (pc, a, var) in enumerate(lst):
             vs[var.decl().name()] = var
             vs["__pc__" + var.decl().name()] = pc
-    for name, d in h.dup.items():
+    for name, d in h.dup_vars:
         vs[d.decl().name()] = d
     for a in h.I.assumptions:
         pass
@@ -309,7 +328,7 @@ def build_real(h, values, mobile=None, scripted_table=True):
     if getattr(h, "table_mode", None) == "stub" and scripted_table:
         # the symbolic run used the table CONTRACT (arbitrary answers); the replay gives the real Router a table
         # that answers exactly as in the model
-        R.location_table = ScriptedTable(real_entries, {n for n, d in h.dup.items() if values.get(d.decl().name())})
+        R.location_table = ScriptedTable(real_entries, {n for n, d in h.dup_vars if values.get(d.decl().name())})
     # free-valued stubs: the calls on the model's path, in order
     from unittest import mock
     class_patches = []
@@ -320,7 +339,17 @@ def build_real(h, values, mobile=None, scripted_table=True):
             continue
         seq = [conv(values[var.decl().name()]) for pc, a, var in lst if values.get("__pc__" + var.decl().name(), True)]
 
-        def patched(*a, _seq=seq, _attr=attr, **k):
+        def patched(*a, _seq=seq, _attr=attr, _lst=lst, **k):
+            if _attr == "gn_geometric_function_f":
+                # one model value per distinct argument tuple: find the tuple that matches the actual arguments
+                for pc_, sa, var in _lst:
+                    try:
+                        ca = [G.concretize(x, values) for x in sa]
+                        if ca[0] == a[0] and ca[1] == a[1] and ca[2] == a[2] and ca[3] == a[3]:
+                            return float(values[var.decl().name()])
+                    except Exception:
+                        continue
+                raise AssertionError("replay: geometric function called with arguments the model does not know")
             if not _seq:
                 raise AssertionError(f"replay: unexpected extra call of {_attr}")
             return _seq.pop(0)
